@@ -78,7 +78,7 @@ struct Interp {
     bool trace = false;
 
     explicit Interp(const std::string &scratchDir);
-    explicit Interp(const RunCtx &ctx);
+    explicit Interp(const RunCtx &ctx, const std::string &prop = "");     // exclusions of open findings that are declared harmless for `prop` are not applied
     std::set<std::string> openFindings;           // open known findings: their input classes are excluded by construction
     std::map<std::string, long long> excluded;    // how many operations were excluded per finding
     ~Interp();
